@@ -7,6 +7,7 @@ import (
 	"fmt"
 
 	"pgregory.net/rapid"
+	"verif/internal/gripx"
 	"verif/internal/model"
 )
 
@@ -95,6 +96,39 @@ func Graph(t *rapid.T, maxV, maxE int) *model.Graph {
 		g.E = append(g.E, e)
 	}
 	return g
+}
+
+// Arrival draws the way graph g got into the store (see gripx.Arrival): about half the
+// time a plain load (nil).
+func Arrival(t *rapid.T, g *model.Graph) *gripx.Arrival {
+	if rapid.Bool().Draw(t, "plainLoad") {
+		return nil
+	}
+	a := &gripx.Arrival{Bulk: rapid.Bool().Draw(t, "arr.bulk"), Twice: rapid.IntRange(0, 3).Draw(t, "arr.twice") == 0}
+	for i, v := range g.V {
+		if rapid.IntRange(0, 2).Draw(t, fmt.Sprintf("arr.oldV%d", i)) == 0 {
+			a.Old = append(a.Old, &model.Element{ID: v.ID, Label: rapid.SampledFrom(VertexLabels).Draw(t, fmt.Sprintf("arr.oldV%d.label", i)),
+				Data: Data(t, fmt.Sprintf("arr.oldV%d", i))})
+		}
+	}
+	ends := append(append([]string{}, VertexIDs...), GhostIDs...)
+	for i, e := range g.E {
+		if rapid.IntRange(0, 2).Draw(t, fmt.Sprintf("arr.oldE%d", i)) == 0 {
+			l := fmt.Sprintf("arr.oldE%d", i)
+			a.Old = append(a.Old, &model.Element{ID: e.ID, Edge: true, Label: rapid.SampledFrom(EdgeLabels).Draw(t, l+".label"),
+				From: rapid.SampledFrom(ends).Draw(t, l+".from"), To: rapid.SampledFrom(ends).Draw(t, l+".to"), Data: Data(t, l)})
+		}
+	}
+	for i := 0; i < rapid.IntRange(0, 2).Draw(t, "arr.nGoneV"); i++ {
+		a.Gone = append(a.Gone, &model.Element{ID: fmt.Sprintf("gone%d", i), Label: rapid.SampledFrom(VertexLabels).Draw(t, fmt.Sprintf("arr.goneV%d.label", i)),
+			Data: Data(t, fmt.Sprintf("arr.goneV%d", i))})
+	}
+	for i := 0; i < rapid.IntRange(0, 2).Draw(t, "arr.nGoneE"); i++ {
+		l := fmt.Sprintf("arr.goneE%d", i)
+		a.Gone = append(a.Gone, &model.Element{ID: fmt.Sprintf("egone%d", i), Edge: true, Label: rapid.SampledFrom(EdgeLabels).Draw(t, l+".label"),
+			From: rapid.SampledFrom(ends).Draw(t, l+".from"), To: rapid.SampledFrom(ends).Draw(t, l+".to"), Data: map[string]interface{}{}})
+	}
+	return a
 }
 
 // ---------------------------------------------------------------------------------
